@@ -391,29 +391,53 @@ func (k *checker) cliReports(lats []int64, sorted []int64, repl spec, hasZero bo
 	g := kit.NewRng(repl.Seed ^ 0x5eed)
 	dir := k.c.Work
 	k.cliSeq++
-	in := filepath.Join(dir, fmt.Sprintf("c11-%d.bin", k.cliSeq))
-	f, err := os.Create(in)
-	if err != nil {
-		panic(err)
-	}
-	encName := []string{"gob", "json", "csv"}[g.Pick(3)]
-	var enc vegeta.Encoder
-	switch encName {
-	case "json":
-		enc = vegeta.NewJSONEncoder(f)
-	case "csv":
-		enc = vegeta.NewCSVEncoder(f)
-	default:
-		enc = vegeta.NewEncoder(f)
-	}
-	cut := sorted[(len(sorted)*9)/10]
-	for i, l := range lats {
-		if err := enc.Encode(repl.resultFor(i, l, cut)); err != nil {
-			panic(err)
+	// one results file, or consecutive chunks of the data set in several files
+	bounds := []int{0}
+	for _, l := range repl.Split {
+		if nb := bounds[len(bounds)-1] + l; l > 0 && nb < len(lats) {
+			bounds = append(bounds, nb)
 		}
 	}
-	f.Close()
-	defer os.Remove(in)
+	bounds = append(bounds, len(lats))
+	encName := []string{"gob", "json", "csv"}[g.Pick(3)]
+	cut := sorted[(len(sorted)*9)/10]
+	var ins []string
+	for fi := 0; fi+1 < len(bounds); fi++ {
+		in := filepath.Join(dir, fmt.Sprintf("c11-%d-%d.bin", k.cliSeq, fi))
+		f, err := os.Create(in)
+		if err != nil {
+			panic(err)
+		}
+		var enc vegeta.Encoder
+		switch encName {
+		case "json":
+			enc = vegeta.NewJSONEncoder(f)
+		case "csv":
+			enc = vegeta.NewCSVEncoder(f)
+		default:
+			enc = vegeta.NewEncoder(f)
+		}
+		for i := bounds[fi]; i < bounds[fi+1]; i++ {
+			if err := enc.Encode(repl.resultFor(i, lats[i], cut)); err != nil {
+				panic(err)
+			}
+		}
+		f.Close()
+		defer os.Remove(in)
+		ins = append(ins, in)
+	}
+	if repl.SplitRev {
+		for a, b := 0, len(ins)-1; a < b; a, b = a+1, b-1 {
+			ins[a], ins[b] = ins[b], ins[a]
+		}
+	}
+	inArgs := ""
+	for _, in := range ins {
+		inArgs += " " + kit.HexS(in)
+	}
+	if len(ins) > 1 {
+		s.Count(fmt.Sprintf("cli:%d result files of very different lengths (reversed args=%v)", len(ins), repl.SplitRev))
+	}
 	every := int64(0)
 	if g.Chance(0.3) {
 		every = int64(200 * time.Microsecond) // periodic reports: Close, more Adds, Close again
@@ -423,7 +447,7 @@ func (k *checker) cliReports(lats []int64, sorted []int64, repl spec, hasZero bo
 	for _, t := range types {
 		out := filepath.Join(dir, fmt.Sprintf("c11-%d.%s", k.cliSeq, t))
 		outs = append(outs, out)
-		ops = append(ops, fmt.Sprintf("report %s %d - %s %s", kit.HexS(t), every, kit.HexS(out), kit.HexS(in)))
+		ops = append(ops, fmt.Sprintf("report %s %d - %s%s", kit.HexS(t), every, kit.HexS(out), inArgs))
 	}
 	res, err := kit.RunVegeta(k.c.Vegeta, ops)
 	if err != nil {
